@@ -178,6 +178,9 @@ func runWin(sc WinScenario) (evs []Ev, inconclusive string) {
 	var gates []string
 	if !sc.Free {
 		gates = []string{p + ".trig", p + ".fired"}
+		if sc.Cfg.Kind == "tumbling" { // Add's late re-delivery is sent with the lock released (step "latesend")
+			gates = append(gates, p+".late")
+		}
 		if sc.Cfg.Kind == "sliding" { // the model separates the delivery from taking the lock again (step "relock")
 			gates = append(gates, p+".sent")
 			gates = append(gates, p+".late") // ... and Add's late re-deliveries, each sent with the lock released (step "latesend")
